@@ -224,16 +224,22 @@ pub fn run(cases: &[Value], trace: &mut Trace, seed: u64) {
                     ok(&r)
                 }
                 "set_vring_addr" => {
-                    // addresses inside region r (well away from its end), translated by the kernel backends
-                    let ri = rng.below(nreg as u64) as usize;
-                    let (base, len) = (ranges[ri].0 .0, ranges[ri].1 as u64);
+                    // addresses inside the regions (well away from their ends), translated by the kernel backends;
+                    // each of the three rings lies in a region of its own choice (the same one or different ones)
+                    let pick = |rng: &mut Rng| {
+                        let ri = rng.below(nreg as u64) as usize;
+                        (ranges[ri].0 .0, ranges[ri].1 as u64)
+                    };
+                    let (bd, ld) = pick(&mut rng);
+                    let (bu, lu) = pick(&mut rng);
+                    let (ba, la) = pick(&mut rng);
                     let mut cfg = VringConfigData {
                         queue_max_size: 256,
                         queue_size: 1 << rng.below(9),
                         flags: rng.below(2) as u32,
-                        desc_table_addr: base + 16 * rng.below(len / 64),
-                        used_ring_addr: base + len / 4 + 4 * rng.below(len / 64),
-                        avail_ring_addr: base + len / 2 + 2 * rng.below(len / 64),
+                        desc_table_addr: bd + 16 * rng.below(ld / 64),
+                        used_ring_addr: bu + lu / 4 + 4 * rng.below(lu / 64),
+                        avail_ring_addr: ba + la / 2 + 2 * rng.below(la / 64),
                         log_addr: Some(rng.u64_edge()),
                     };
                     match cls {
